@@ -156,9 +156,9 @@ pub mod fixed_arr {
             D: Deserializer<'de>,
         {
             if d.is_human_readable() {
-                let hex_str = <&str>::deserialize(d)?;
+                let hex_str = String::deserialize(d)?;
                 let mut share = [0u8; N];
-                hex::decode_to_slice(hex_str, &mut share).map_err(de::Error::custom)?;
+                hex::decode_to_slice(&hex_str, &mut share).map_err(de::Error::custom)?;
                 return Ok(share);
             }
 
